@@ -108,4 +108,40 @@ def density (kb : α) (p t : List α) : List α := List.zipWith (fun pi ti => pi
 
 end
 
+/-! ### the dictionary of stored profiles (`taurex/util/output.py: generate_profile_dict`,
+     `SimpleForwardModel.generate_profiles`) -/
+
+/-- a value of the profile dictionary: a per-layer array, a (species × layer) table, or `None` -/
+inductive ProfVal (α : Type) where
+  | arr (l : List α)
+  | arr2 (rows : List (List α))
+  | none
+  deriving Repr
+
+/-- an optional table as a dictionary value -/
+def ProfVal.ofTable {α : Type} : Option (List (List α)) → ProfVal α
+  | some rows => .arr2 rows
+  | .none => .none
+
+/-- one value per layer: a 1-D entry has `n` values, every row of a table has `n` values -/
+def ProfVal.PerLayer {α : Type} (n : Nat) : ProfVal α → Prop
+  | .arr l => l.length = n
+  | .arr2 rows => ∀ r ∈ rows, r.length = n
+  | .none => True
+
+/-- `SimpleForwardModel.generate_profiles()`: the dictionary `generate_profile_dict(model)` builds — temperature, the two
+    gas-mix tables (`None` when the chemistry has no such gases), density, the stored views scale height / altitude /
+    gravity, the layer pressures, the condensate table when the chemistry has condensates (`cond = some …`) — plus the mean
+    molecular weight; an association list in insertion order -/
+def profileDict {α : Type} (v : Views α) (temp press dens mu : List α) (act inact cond : Option (List (List α))) :
+    List (String × ProfVal α) :=
+  [("temp_profile", .arr temp), ("active_mix_profile", .ofTable act), ("inactive_mix_profile", .ofTable inact),
+   ("density_profile", .arr dens), ("scaleheight_profile", .arr v.scaleheightProfile),
+   ("altitude_profile", .arr v.altitudeProfile), ("gravity_profile", .arr v.gravityProfile),
+   ("pressure_profile", .arr press)]
+  ++ (match cond with
+      | some c => [("condensate_profile", ProfVal.arr2 c)]
+      | .none => [])
+  ++ [("mu_profile", .arr mu)]
+
 end Taurex.Structure
